@@ -1935,13 +1935,15 @@ Lemma nested_refused_example :
   chan_val (c_heap s3) 2 POut "out" = Some 4%Z.
 Proof. vm_compute. repeat split; reflexivity. Qed.
 
-(* STILL VIOLATED: the merge re-points the enclosing macro's input through the value_receiver setter, which pushes
-   the enclosing value into the fresh input: sent out with x = 5 (assigned at inner's own input while idle; links
-   are one-directional), inner comes back showing x = 1 with the output computed for 5 *)
-Lemma relink_push_refuted :
-  RELINK_PUSH = true /\
+(* an input assigned at the nested node's own level (links are one-directional: the enclosing input keeps 1) is what
+   the node is sent out with, what it shows when it comes back, and what its output belongs to; the enclosing
+   macro's link points at the fresh input channel *)
+Lemma relink_keeps_shown :
+  RELINK_PUSH = false /\
   let s := run_ops AsWritten 2 demo_nested [OSet "x" 5%Z; ORun; OComplete] in
   c_log s = [OS "ok"; OS "Future"; OS "done"] /\
-  chan_val (c_heap s) 2 PIn "x" = Some 1%Z /\ chan_val (c_heap s) 2 POut "out" = Some 8%Z /\
-  apply_fun FLin [101; 2; 2]%Z = Some 4%Z.
+  chan_val (c_heap s) 2 PIn "x" = Some 5%Z /\ chan_val (c_heap s) 2 POut "out" = Some 8%Z /\
+  chan_val (c_heap s) 1 PIn "x" = Some 1%Z /\
+  match find_chan (c_heap s) 1 PIn "x" with Some c => c_recv (ch (c_heap s) c) | None => None end
+    = find_chan (c_heap s) 2 PIn "x".
 Proof. vm_compute. repeat split; reflexivity. Qed.
